@@ -287,16 +287,30 @@ func execCvFixhex(st *State, args []string) string {
 
 func execCvDynhex(st *State, args []string) string {
 	text := cvText(args[0])
-	in := func() []byte { return append([]byte(nil), text...) }
+	// one call: the input text must not be written to, and the result must not live in the input
+	// buffer (the caller may recycle the text once the call has returned)
+	call := func(d *[]byte) string {
+		in := append([]byte(nil), text...)
+		e := conv.DynamicBytesUnmarshalText(d, in)
+		r := cvObsBytes(e, *d)
+		if string(in) != string(text) {
+			r += " input-text-changed"
+		}
+		for i := range in {
+			in[i] = 'z'
+		}
+		if cvObsBytes(e, *d) != r && string(in) != "" && !strings.HasSuffix(r, "input-text-changed") {
+			r += " result-aliases-input-text"
+		}
+		return r
+	}
 	// nil destination, a too small one and a large one (reuse path)
 	var d1 []byte
-	r1 := cvObsBytes(conv.DynamicBytesUnmarshalText(&d1, in()), d1)
+	r1 := call(&d1)
 	d2 := make([]byte, 1, 1)
-	e2 := conv.DynamicBytesUnmarshalText(&d2, in())
-	r2 := cvObsBytes(e2, d2)
+	r2 := call(&d2)
 	d3 := make([]byte, 3, 100)
-	e3 := conv.DynamicBytesUnmarshalText(&d3, in())
-	r3 := cvObsBytes(e3, d3)
+	r3 := call(&d3)
 	return cvAgree(r1, r2, r3)
 }
 
